@@ -14,6 +14,11 @@ pub const ARENA: u64 = 0x4000_0000_0000;
 pub const ARENA_RO: u64 = 0x4100_0000_0000;
 pub const ARENA_PAGES: u64 = 16;
 pub const ARENA_SIZE: u64 = ARENA_PAGES * 4096;
+/// a larger read-only-content view (pattern `pat(offset, BIG_SEED)`), for reads that span many pages
+pub const ARENA_BIG: u64 = 0x4200_0000_0000;
+pub const ARENA_BIG_PAGES: u64 = 40;
+pub const ARENA_BIG_SIZE: u64 = ARENA_BIG_PAGES * 4096;
+pub const BIG_SEED: u64 = 0xB16B16;
 
 pub struct Arena {
     pub target: Target,
@@ -36,6 +41,10 @@ impl Arena {
         b.add_file_map_at(ARENA, ARENA_PAGES, 3, &pb, 0, true);
         b.add_anon_at(ARENA + ARENA_SIZE, 1, 0, 0);
         b.add_file_map_at(ARENA_RO, ARENA_PAGES, 1, &pb, 0, true);
+        let big = scratch.join("arena_big");
+        let content: Vec<u8> = (0..ARENA_BIG_SIZE).map(|o| pat(o, BIG_SEED)).collect();
+        std::fs::write(&big, content).map_err(|e| e.to_string())?;
+        b.add_file_map_at(ARENA_BIG, ARENA_BIG_PAGES, 3, &big.to_string_lossy().into_owned().into_bytes(), 0, true);
         let target = Target::spawn(&b.spec, scratch)?;
         let view = unsafe {
             use std::os::fd::AsRawFd;
